@@ -192,16 +192,30 @@ static void trajectory(const Cfg& cfg, vh::Rng& r, int N) {
     for (int i = 0; i < ls; ++i) {
         sys[i] = El<T>::rnd(r);
     }
+    //a bulk delay (leading zero taps) in a third of the systems; with a noise-free desired signal the first errors are then exactly 0
+    const int delay = (ls >= 2 && r.below(3) == 0) ? int(r.range(1, ls - 1)) : 0;
+    for (int i = 0; i < delay; ++i) {
+        sys[i] = T{};
+    }
+    const bool noise_free = (r.below(2) == 0);
+    //input level: the NLMS recursion is exercised far away from unit scale too (LMS keeps unit scale: its stable step depends on it;
+    //RLS too: its conditioning depends on load/level^2, and the 1e-7 tracking bound was established for the load range at unit level)
+    const double level = (cfg.kind == NLMS && r.below(3) == 0) ? std::pow(10.0, r.uni(-7.0, 3.0)) : 1.0;
+    const int lead_silence = (r.below(4) == 0) ? int(r.range(1, 2 * cfg.L)) : 0;
     A x(N), d(N);
     for (int k = 0; k < N; ++k) {
-        x[k] = El<T>::rnd(r);
+        x[k] = (k < lead_silence) ? T{} : El<T>::rnd(r, level);
     }
     for (int k = 0; k < N; ++k) {
         C acc;
         for (int j = 0; j < ls && j <= k; ++j) {
             acc = acc + El<T>::c(sys[j]) * El<T>::c(x[k - j]);
         }
-        d[k] = El<T>::from(acc + El<T>::c(El<T>::rnd(r, 0.01)));
+        d[k] = noise_free ? El<T>::from(acc) : El<T>::from(acc + El<T>::c(El<T>::rnd(r, 0.01 * level)));
+    }
+    vh::obs_add(level != 1.0 ? "trajectories_away_from_unit_level" : "trajectories_at_unit_level");
+    if (delay > 0 && noise_free) {
+        vh::obs_add("trajectories_with_exactly_zero_initial_errors");
     }
     //lock schedule on sample indices
     std::vector<bool> locked(N, false);
@@ -385,13 +399,19 @@ static void convergence(const Cfg& cfg, vh::Rng& r) {
     const int ls = int(r.range(1, L));
     A sys(ls);
     ld sn = 0;
+    const int delay = (ls >= 2 && r.below(3) == 0) ? int(r.range(1, ls - 1)) : 0;
     for (int i = 0; i < ls; ++i) {
-        sys[i] = El<T>::rnd(r);
+        sys[i] = (i < delay) ? T{} : El<T>::rnd(r);
         sn += ref::abs2(El<T>::c(sys[i]));
     }
+    //NLMS is invariant to the input level (the statement's "white input" has no preferred scale): a third of its runs are far from unit level
+    const double level = (cfg.kind == NLMS && r.below(3) == 0) ? std::pow(10.0, r.uni(-7.0, 3.0)) : 1.0;
     A x(N), d(N);
     for (int k = 0; k < N; ++k) {
-        x[k] = El<T>::rnd(r);
+        x[k] = El<T>::rnd(r, level);
+    }
+    if (level != 1.0) {
+        vh::obs_add("convergence_runs_away_from_unit_level");
     }
     for (int k = 0; k < N; ++k) {
         C acc;
